@@ -517,7 +517,8 @@ def check_pipe(ctx, rng, n):
         if fault:
             files.insert(rng.randint(0, len(files)), "locked")
         threads = rng.choice([1, 1, 2, 4, 8])
-        mode = rng.choice(["std", "std", "std", "pre", "passthru", "files", "count"])
+        mode = rng.choice(["std", "std", "pre", "passthru", "files", "count", "json", "json", "list", "fwm", "vimgrep", "only",
+                           "stats"])
         total = sum(sizes.get(f, 1) * 30 for f in files)
         k = rng.choice([0, 1, rng.randint(0, 4096), rng.randint(0, max(1, total)), rng.randint(0, 70000), 65536, 65537])
         cases.append(dict(files=files, threads=threads, mode=mode, k=k, fault=fault, lb=rng.random() < 0.35))
@@ -534,7 +535,22 @@ def check_pipe(ctx, rng, n):
               dict(files=["small"], threads=1, mode="files", k=0, fault=False, lb=True),
               dict(files=["small", "mid"], threads=1, mode="std", k=0, fault=False, lb=True),
               dict(files=["small", "mid"], threads=3, mode="std", k=0, fault=False, lb=True),
-              dict(files=["small", "mid"], threads=1, mode="files", k=0, fault=False, lb=False)]
+              dict(files=["small", "mid"], threads=1, mode="files", k=0, fault=False, lb=False),
+              # every output mode with the pipe closed in the middle of the first big file, one thread and several
+              dict(files=["big1", "mid", "big2"], threads=1, mode="json", k=10, fault=False),
+              dict(files=["big1", "mid", "big2"], threads=1, mode="json", k=70000, fault=False),
+              dict(files=["mid", "big1"], threads=4, mode="json", k=10, fault=False),
+              dict(files=["big1", "big2"], threads=1, mode="vimgrep", k=100, fault=False),
+              dict(files=["big1", "big2"], threads=3, mode="vimgrep", k=100, fault=False),
+              dict(files=["big1", "big2"], threads=1, mode="only", k=100, fault=False),
+              dict(files=["big1", "big2"], threads=1, mode="stats", k=100, fault=False),
+              dict(files=["big1", "big2"], threads=2, mode="stats", k=100, fault=False),
+              dict(files=["big1", "none"], threads=1, mode="list", k=0, fault=False, lb=True),
+              dict(files=["big1", "none"], threads=2, mode="list", k=0, fault=False),
+              dict(files=["none", "big1", "none"], threads=1, mode="fwm", k=0, fault=False, lb=True),
+              dict(files=["none", "big1", "none"], threads=2, mode="fwm", k=0, fault=False),
+              dict(files=["big1", "mid"], threads=1, mode="count", k=0, fault=False, lb=True),
+              dict(files=["big1", "mid"], threads=2, mode="count", k=0, fault=False)]
 
     def args(c):
         a = ["--color", "never", "-j", str(c["threads"])]
@@ -546,6 +562,8 @@ def check_pipe(ctx, rng, n):
             a += ["--passthru"]
         if c["mode"] == "count":
             a += ["-c"]
+        a += {"json": ["--json"], "list": ["-l"], "fwm": ["--files-without-match"], "vimgrep": ["--vimgrep"],
+              "only": ["-o"], "stats": ["--stats"]}.get(c["mode"], [])
         if c["mode"] == "files":
             return a + ["--files"] + c["files"]
         return a + ["-e", PAT] + c["files"]
@@ -562,6 +580,10 @@ def check_pipe(ctx, rng, n):
                 items.append(dict(kind="hay", path=f, res=0, out=b"x"))
             elif f == "locked":
                 items.append(dict(kind="hay", path=f, res=2, out=b""))
+            elif c["mode"] == "fwm":
+                # --files-without-match: a file without a pattern match is the one that is printed and counts
+                m = f == "none"
+                items.append(dict(kind="hay", path=f, res=0 if m else 1, out=b"x" if m else b""))
             else:
                 m = f != "none"
                 has_out = m or c["mode"] == "passthru"
@@ -604,7 +626,10 @@ def check_pipe(ctx, rng, n):
         slow = max(slow, r["secs"])
         got = (r["status"], tuple(sorted(k for k, _ in classify_stderr(r["err"]))))
         clean = not c["fault"]
-        some_match = c["mode"] == "files" or any(f not in ("none", "locked") for f in c["files"])
+        if c["mode"] == "fwm":
+            some_match = any(f == "none" for f in c["files"])
+        else:
+            some_match = c["mode"] == "files" or any(f not in ("none", "locked") for f in c["files"])
         # the property statement directly: no other fault -> status 0 and silence
         if clean:
             par = c["threads"] > 1 and len(c["files"]) > 1
@@ -813,7 +838,7 @@ def run(ctx):
                        "match, mode-000 file, missing path, dangling symlink, mode-000 directory, directory (depth <= 2) "
                        "x modes standard/-c/-l/--files/-q x -j1/-jN x --sort/--sortr x --no-messages x -L, run as uid "
                        "nobody; non-trivial = at least one injected fault. pipe scenarios: 1-4 files of 3..30000 "
-                       "matching/non-matching lines (+ an unreadable file) x standard/--pre cat/--passthru/--files/-c x "
+                       "matching/non-matching lines (+ an unreadable file) x standard/--pre cat/--passthru/--files/-c/--json/-l/--files-without-match/--vimgrep/-o/--stats x "
                        "-j1..8, stdout closed after k bytes; model evaluated for every breaking point.")
     avail = check_decisions(ctx, rng)
     check_invalid_args(ctx, rng)
